@@ -292,6 +292,11 @@ func CalleeRef(cc *ssa.CallCommon) string {
 		return "closure:" + ir.FuncKey(f.Fn.(*ssa.Function))
 	case *ssa.Builtin:
 		return "builtin." + f.Name()
+	case *ssa.UnOp:
+		// call through a package-level function variable (mockable hooks such as computeTTL, timestamp)
+		if g, ok := f.X.(*ssa.Global); ok && f.Op == token.MUL {
+			return "var:" + globalRef(g)
+		}
 	}
 	return ""
 }
